@@ -217,8 +217,9 @@ def m_str(I, x=""):
     from .interp import OpaqueStr
     if isinstance(x, SymInt):
         from .strings import PieceStr, IntPiece
-        if core.CUR.prove(x.t >= 0):
-            return PieceStr([IntPiece(x)])
+        if core.CUR.fork(x.t < 0):
+            return PieceStr(["-", IntPiece(-x)])
+        return PieceStr([IntPiece(x)])
     if isinstance(x, (str, int, float)) and not isinstance(x, bool):
         return str(x)
     if isinstance(x, bool):
@@ -430,6 +431,8 @@ def m_unpack_from(I, fmt, buf, offset=0):
             elif ch in "BHI":
                 for _ in range(1 if count is None else (count if isinstance(count, int) else core.CUR.concretize(count, what="struct repeat"))):
                     items.append((ch, None))
+            elif ch == "-":
+                raise PyExc("struct.error", "bad char in struct format")
             else:
                 raise Unsupported("struct format char %r" % ch)
             count = None
